@@ -35,12 +35,24 @@ var solvers = []solverSpec{
 	}},
 }
 
+// lastRun: process time of the most recent solver runs, by (file, solver)
+var (
+	runTimes   = map[string]float64{}
+	runTimesMu sync.Mutex
+)
+
 func runSolver(ctx context.Context, sp solverSpec, file string, secs int) (string, string) {
 	solverSem <- struct{}{}
 	defer func() { <-solverSem }()
 	if ctx.Err() != nil {
 		return "cancelled", ""
 	}
+	t0 := time.Now()
+	defer func() {
+		runTimesMu.Lock()
+		runTimes[file+"\x00"+sp.name] = time.Since(t0).Seconds()
+		runTimesMu.Unlock()
+	}()
 	a := sp.args(file, secs)
 	cctx, cancel := context.WithTimeout(ctx, time.Duration(secs+2)*time.Second)
 	defer cancel()
@@ -133,6 +145,11 @@ func solve(query string, dir, name string, secs int, solverNames []string) Solve
 			if a.status == "sat" || a.status == "unsat" {
 				res.Status, res.Solver, res.Raw = a.status, a.solver, a.raw
 				res.Time = time.Since(start).Seconds()
+				runTimesMu.Lock()
+				if t, ok := runTimes[file+"\x00"+a.solver]; ok {
+					res.Time = t // the deciding solver's own run time (queueing excluded)
+				}
+				runTimesMu.Unlock()
 				cancel()
 				return res
 			}
